@@ -48,5 +48,19 @@ def run(chk):
                 r["is_waiter_event"] = r["p"]["uid"].startswith("ask:")
             return ok
         return True
-    eg.standard_run(chk, "C10", ["wait"], {"wait_ret", "wait_timeout", "pub"}, key_of=key_of, nontrivial=nontrivial,
-                    keep=keep, collect_kw=dict(max_ext=3))
+    import random
+    from harness.drivers import engine_traces as et
+    from harness.programs import scenarios as sc
+    items = eg.collect(chk, ["wait"], max_ext=3)
+    # "... also after the run was serialized and resumed": snapshot while the step is suspended in its wait, resume,
+    # then answer (requirements are not serialised; the waiter is re-established by re-running the step)
+    rng = random.Random(chk.seed)
+    for (label, prog, ext) in [("waiter(reqs k=1)+resume", sc.waiter(None, {"k": 1}), [("Resp1", None), ("Resp", None)]),
+                               ("waiter(timeout=5)+resume", sc.waiter(5), [("Resp", None)])]:
+        for (tr, sched) in et.explore(prog, ext_menu=ext, max_depth=4, max_paths=chk.pick(6, 30), rng=random.Random(rng.random()),
+                                      drain=False, max_ext=1):
+            s2 = [c for c in sched]
+            tr2 = et.replay_then_resume(prog, s2, ext)
+            items.append((label, prog, ext, tr2, s2 + [["snapshot+resume"]]))
+    eg.standard_run(chk, "C10", None, {"wait_ret", "wait_timeout", "pub"}, key_of=key_of, nontrivial=nontrivial,
+                    keep=keep, items=items)
